@@ -185,6 +185,66 @@ def inline_property(run, ctx, e):
     return _SubstSelf(e.value).visit(copy.deepcopy(body[0].value))
 
 
+_PROP_BODIES = {}
+
+
+def _prop_bodies(run, cq):
+    """{body text (over `self`): property name} for the one-line properties of class cq (and its bases)."""
+    key = (id(run), cq)
+    if key in _PROP_BODIES:
+        return _PROP_BODIES[key]
+    out = {}
+    for k in run.prog.mro(cq):
+        for name, fi in run.prog.classes[k].methods.items():
+            if not fi.is_property:
+                continue
+            body = [s for s in fi.node.body if not (isinstance(s, ast.Expr) and isinstance(s.value, ast.Constant))]
+            if len(body) == 1 and isinstance(body[0], ast.Return) and body[0].value is not None:
+                out.setdefault(U(body[0].value), name)
+    _PROP_BODIES[key] = out
+    return out
+
+
+class _FoldProps(ast.NodeTransformer):
+    """The reverse of property inlining: `X.state.closing` -> `X.is_closing` when X is an instance of a class whose
+    one-line property is_closing returns self.state.closing.  (So that code reading the field directly and code going
+    through the property have a common form.)"""
+    def __init__(self, run, ctx):
+        self.run, self.ctx = run, ctx
+
+    def visit_Attribute(self, node):
+        node = self.generic_visit(node)
+        if not isinstance(node.ctx, ast.Load):
+            return node
+        base = node
+        for _ in range(3):
+            if not isinstance(base, ast.Attribute):
+                break
+            base = base.value
+            try:
+                tys = self.run.types.expr(base, self.ctx)
+            except Exception:
+                break
+            for t in tys:
+                if isinstance(t, str) and t.startswith('inst:') and t[5:] in self.run.prog.classes:
+                    pb = _prop_bodies(self.run, t[5:])
+                    txt = U(_SubstBase(base).visit(copy.deepcopy(node)))
+                    if txt in pb:
+                        return ast.copy_location(ast.Attribute(value=base, attr=pb[txt], ctx=ast.Load()), node)
+        return node
+
+
+class _SubstBase(ast.NodeTransformer):
+    """Replace the sub-expression object ``base`` (by identity of its text) with the name `self`."""
+    def __init__(self, base):
+        self.text = U(base)
+
+    def visit(self, node):
+        if isinstance(node, ast.expr) and U(node) == self.text:
+            return ast.Name(id='self', ctx=ast.Load())
+        return self.generic_visit(node)
+
+
 def atom_text(run, ctx, e):
     """Canonical text of an atomic condition, one-line properties inlined."""
     r = inline_property(run, ctx, e)
@@ -342,6 +402,14 @@ def atom_forms(run, g, node, e, pol, env=None):
         c2 = _InlineProps(run, ctx).visit(copy.deepcopy(c))
         if U(c2) != U(c):
             cands.append(c2)
+    for c in list(cands):
+        # direct field reads folded back into the one-line property that returns them
+        try:
+            c4 = _FoldProps(run, ctx).visit(copy.deepcopy(c))
+            if U(c4) != U(c):
+                cands.append(c4)
+        except Exception:
+            pass
     for c in list(cands):
         # named constants (module / class level) replaced by their values
         c3 = _FoldConsts(run, ctx, g).visit(copy.deepcopy(c))
@@ -1906,3 +1974,14 @@ def canon(R, g, n, e, depth=2):
                     if mapping:
                         e2 = _Subst(lambda nm: mapping.get(nm)).visit(copy.deepcopy(e2))
     return U(e2)
+
+
+def pfold(R, ctx, e):
+    """Text of e with direct reads of fields folded back into the one-line properties that return them
+    (`self.state.key` -> `self.key`), so that both spellings compare equal."""
+    if e is None:
+        return 'None'
+    try:
+        return U(_FoldProps(R, ctx).visit(copy.deepcopy(e)))
+    except Exception:
+        return U(e)
